@@ -1091,6 +1091,28 @@ func mustFollow(from ssa.Instruction, pred func(ssa.Instruction) bool, until fun
 	// leaving a transparent helper is not leaving the operation: continue after its call site
 	if in != nil && isReturn(in) {
 		if site := transparentSite(from.Parent()); site != nil {
+			// the helper's constant boolean result decides the caller's branch on it
+			if ret := in.(*ssa.Return); len(ret.Results) == 1 {
+				if k, isC := boolConst(ret.Results[0]); isC {
+					blk := site.Block()
+					if ifi, ok := blk.Instrs[len(blk.Instrs)-1].(*ssa.If); ok && len(blk.Succs) == 2 {
+						for i, succ := range blk.Succs {
+							a := normCond(ifi.Cond, i == 0)
+							if a.V == ssa.Value(site) && (a.Kind == "true") == k && (a.Kind == "true" || a.Kind == "false") {
+								q2 := &pathQ{kill: pred, target: q.target}
+								// nothing between the call and the branch may be a target/kill other than the If itself
+								in2, path2 := q2.reach(succ, 0)
+								if in2 != nil && isReturn(in2) {
+									if outer := transparentSite(site.Parent()); outer != nil {
+										return mustFollow(outer, pred, until)
+									}
+								}
+								return in2 == nil, in2, path2
+							}
+						}
+					}
+				}
+			}
 			return mustFollow(site, pred, until)
 		}
 	}
@@ -1437,11 +1459,12 @@ func (ge *guardEnv) ensuresUncached(h *ssa.Function, g Guard, depth int) bool {
 		}
 		// `return check(...)`: success of the function is success of that very check
 		if p.val != nil {
-			kind := "true"
-			if p.wantNil {
-				kind = "nil"
+			at := Atom{Kind: "nil", V: p.val}
+			if !p.wantNil {
+				// `return x == nil`, `return a < b`, `return !bad(y)`: the returned condition itself is the atom
+				at = normCond(p.val, true)
 			}
-			if g.Match(ge.w, h, Atom{Kind: kind, V: p.val}) {
+			if g.Match(ge.w, h, at) {
 				continue
 			}
 		}
